@@ -333,6 +333,7 @@ pub fn batch_case(kind: Kind) -> impl Strategy<Value = BatchCase> {
 }
 
 pub fn run(env: &Env, rep: &Report) {
+    MAX_SHRINK_ITERS.store(200, std::sync::atomic::Ordering::Relaxed);
     rep.set_rule("sequences of up to 13 batches over 1..5 scenes (a scene may be absent from a batch, all scenes replay the same trajectories), distance shards 1..4 and voting shards 1..3, results drained by the caller after predict or by a drainer thread, a plan per batch that totally orders scene dispatch and voting jobs (job begin .. result send) plus delays at store / voting schedule points, and shutdown either after a drained batch or right after abandoning the result handle of one more batch. Oracle: (a) per scene the record sequence equals that of the simple tracker fed the scene's detection lists, bit-equal up to id renaming, cut at calls with a decision margin below 1e-4; (b) exactly batch_size results, one per scene of the batch, records echoing the detections in order, ids fresh and distinct; (c) the case completes (child-process watchdog). Non-trivial: a batch with >= 2 scenes on >= 2 voting threads, or an achieved plan that orders voting jobs against dispatch; distinct = distinct serialized case");
     rep.assume("absence of deadlock for all schedules is NOT established: forced orders are sampled at hook granularity on the real code; a case that does not finish within 120 s is re-run once in a fresh child and only a second time-out is reported as deadlock");
     let pool = IsoPool::new(&env.prop, "batches", std::time::Duration::from_secs(120));
